@@ -146,3 +146,136 @@ def twin_diagonal(max_rank):
 
 
 KERNELS = [Diagonal()]
+
+
+# ------------------------------------------------------------------ shortcut no-ops of the numpy wrappers
+op_call = z3.Function("np_op", Obj, Obj, Obj)  # result of the wrapped numpy function (uninterpreted)
+to_t = z3.Function("to_tensor", Obj, Obj)
+shape_of_obj = uf("attr_shape", Obj, Obj)
+_arr_int = uf("seq_arr_int", Obj, z3.ArraySort(I, I))
+_len = uf("seq_len", Obj, I)
+
+
+class _NopWrapper(Kernel):
+    prop = "C01"
+    file = "einx/_src/adapter/numpy/classical_from_numpy.py"
+    module = "einx._src.adapter.numpy.classical_from_numpy"
+    wrapper = ""
+
+    @property
+    def qual(self):
+        return f"{self.wrapper}/{self.wrapper}"
+
+    def setup(self, eng, bound=None):
+        self.x = z3.Const("x", Obj)
+        self.n = z3.Int("n")
+        self.arg = z3.Array("arg", I, I)
+        self.called = []
+
+        def c_to_tensor(e, p, av, kw):
+            return STup([SObj(to_t(a.t)) for a in av])
+
+        def c_op(e, p, av, kw):
+            sq = e.as_seq(av[1], p)
+            p.ghost["op_args"] = (av[0], sq)
+            po = fresh("argobj", Obj)
+            p.pc.append(z3.And(_len(po) == sq.n, e.forall(0, sq.n, lambda k: z3.Select(_arr_int(po), k) == z3.Select(sq.arr, k))))
+            return SObj(op_call(av[0].t, po))
+
+        eng.seq_attrs = {"shape": "int"}
+        env = {"x": SObj(self.x), self.argname: SSeq(self.arg, self.n, "int", "list"), "op": SContract(c_op, "wrapped numpy function"), "to_tensor": SContract(c_to_tensor, "to_tensor")}
+        return env, [self.n >= 0], {}
+
+    def identity_condition(self, eng):
+        raise NotImplementedError
+
+    def post(self, eng, out, p):
+        if not isinstance(out, Return) or not isinstance(out.v, SObj):
+            eng.oblige("post:returns a tensor", p, z3.BoolVal(False), "post")
+            return
+        r = out.v.t
+        unchanged = r == self.x
+        if "op_args" in p.ghost:
+            a0, sq = p.ghost["op_args"]
+            k = fresh("k")
+            eng.oblige("post:otherwise the wrapped function is applied to (a conversion of) x with the caller's argument", p,
+                       z3.And(a0.t == to_t(self.x), sq.n == self.n, z3.ForAll([k], z3.Implies(z3.And(0 <= k, k < self.n), z3.Select(sq.arr, k) == z3.Select(self.arg, k)))), "post")
+        else:
+            eng.oblige("post:the argument is returned unchanged only when the numpy call would be the identity", p, z3.And(unchanged, self.identity_condition(eng)), "post")
+
+
+class NopReshape(_NopWrapper):
+    id = "C01.P.nop_reshape"
+    wrapper, argname = "reshape", "shape"
+    describe = "reshape(x, shape) returns x itself only if shape equals x.shape element-wise; otherwise np.reshape(to_tensor(x), shape)"
+
+    def identity_condition(self, eng):
+        k = fresh("k")
+        sh = shape_of_obj(self.x)
+        return z3.And(_len(sh) == self.n, z3.ForAll([k], z3.Implies(z3.And(0 <= k, k < self.n), z3.Select(_arr_int(sh), k) == z3.Select(self.arg, k))))
+
+    def twin(self, tier):
+        return twin_nop("reshape")
+
+
+class NopBroadcast(NopReshape):
+    id = "C01.P.nop_broadcast_to"
+    wrapper, argname = "broadcast_to", "shape"
+    describe = "broadcast_to(x, shape) returns x itself only if shape equals x.shape element-wise"
+
+    def twin(self, tier):
+        return twin_nop("broadcast_to")
+
+
+class NopTranspose(_NopWrapper):
+    id = "C01.P.nop_transpose"
+    wrapper, argname = "transpose", "perm"
+    describe = "transpose(x, perm) returns x itself only if perm is the identity permutation (perm[k] = k for all k)"
+
+    def identity_condition(self, eng):
+        k = fresh("k")
+        return z3.ForAll([k], z3.Implies(z3.And(0 <= k, k < self.n), z3.Select(self.arg, k) == k))
+
+    def twin(self, tier):
+        return twin_nop("transpose")
+
+
+def check_nop(which, shape, arg):
+    """native: the real wrapper on a sentinel object; returning the sentinel itself is allowed only for the identity"""
+    import numpy as np
+    import einx._src.adapter.numpy.classical_from_numpy as M
+
+    class X:
+        def __init__(self, shape):
+            self.shape = tuple(shape)
+            self.ndim = len(shape)
+
+    calls = []
+    w = getattr(M, which)(lambda x, a: calls.append((x, tuple(a))) or ("op", tuple(a)), to_tensor=lambda *xs: xs)
+    x = X(shape)
+    r = w(x, list(arg))
+    ident = (tuple(arg) == tuple(range(len(arg)))) if which == "transpose" else (tuple(arg) == tuple(shape))
+    if r is x:
+        return None if ident else f"{which}(x with shape {tuple(shape)}, {list(arg)}) returns x unchanged although the numpy call is not the identity"
+    if not (calls and calls[0][0] is x and calls[0][1] == tuple(arg)):
+        return f"{which}(x, {list(arg)}) does not call the wrapped function with (x, {tuple(arg)})"
+    return None
+
+
+def twin_nop(which):
+    import itertools
+    n, fails = 0, []
+    for r in range(0, 4):
+        for shape in itertools.product([1, 2, 3], repeat=r):
+            args = list(itertools.permutations(range(r))) if which == "transpose" else [s for s in itertools.product([1, 2, 3], repeat=r)] + [shape + (1,), shape[:-1]]
+            for a in args:
+                n += 1
+                bad = check_nop(which, shape, a)
+                if bad:
+                    fails.append({"detail": bad, "replay": {"fn": "vf.kernels.c01_lowering:check_nop", "args": [which, list(shape), list(a)]}})
+                    if len(fails) >= 3:
+                        return n, fails
+    return n, fails
+
+
+KERNELS += [NopReshape(), NopBroadcast(), NopTranspose()]
